@@ -6,6 +6,8 @@ package main
 
 import (
 	. "vh/kit"
+
+	"github.com/notaryproject/notation-go"
 )
 
 func ip(x int) *int { return &x }
@@ -635,6 +637,10 @@ func histories(rng *Rng, runSeq func([]*c06Case), thorough bool) {
 				continue
 			}
 			sess := &session{rv: &tsRev{}}
+			if acts[0] == "Log" {
+				// these histories hand the very same options object (and its maps) to every step
+				sess.opts = &notation.VerifierVerifyOptions{PluginConfig: map[string]string{"cfg": "1", "other": "2"}, UserMetadata: map[string]string{"io.verif/c06": "frame"}}
+			}
 			level := Pick(rng, c06Levels)
 			var cs []*c06Case
 			for i, st := range steps {
